@@ -13,6 +13,7 @@ ap.add_argument("--per-package", type=int, default=10)
 ap.add_argument("--workers", type=int, default=2)
 ap.add_argument("--seed", type=int, default=1)
 ap.add_argument("--packages", default="")
+ap.add_argument("--delete", action="store_true", help="statement-deletion mutants (assignments and call statements) instead of operator mutants")
 args = ap.parse_args()
 
 REPO = "/repo"
@@ -53,6 +54,10 @@ def sites():
                 if st.startswith("//") or st.startswith("import") or st.startswith('"') or st.startswith("package") or not st:
                     continue
                 code = line.split("//")[0]
+                if args.delete:
+                    if re.match(r"^[A-Za-z_][\w\.\[\]\+\-\*]* (=|\+=|-=) .+[^{(,]$", st) or (re.match(r"^[A-Za-z_][\w\.]*\(.*\)$", st) and not st.startswith(("wg.", "panic(", "defer"))):
+                        out.append({"pkg": pkg, "file": os.path.join(pkg, fn), "line": ln + 1, "old": st, "new": "(deleted)", "_new": ""})
+                    continue
                 for (pat, rep) in OPS:
                     for m in re.finditer(pat, code):
                         # skip matches inside string literals (odd number of quotes before)
